@@ -5,6 +5,8 @@ import PMH.Model.InvHashGen
 import PMH.Model.Prng
 import PMH.Model.FYShuffle
 import PMH.Model.Sig
+import PMH.Model.Jaccard
+import PMH.Model.Mle
 import Std.Data.HashMap
 /-!
 # `pmhdriver`: line protocol in front of the executable models
@@ -140,6 +142,43 @@ def stepSig : List String → String
   | ["noop"] => "ok"
   | _ => "bad-op"
 
+/-- split a token list at "|" -/
+def splitBar (l : List String) : List (List String) :=
+  l.foldr (fun t acc => if t == "|" then [] :: acc else match acc with | h :: r => (t :: h) :: r | [] => [[t]]) [[]]
+
+instance : NatCast Float := ⟨Float.ofNat⟩
+
+def floatOps : Mle.FOps Float where
+  exp := Float.exp
+  ln := Float.log
+  ln1p := Float.log1p
+  isNaN := Float.isNaN
+  bothInfSame := fun a b => a.isInf && b.isInf && ((a > 0) == (b > 0))
+  isPosInf := fun a => a.isInf && a > 0
+  abs := Float.abs
+
+def gssG1 : Float := -1.0 + 1.618033988749895
+def gssG2 : Float := 1.0 - gssG1
+
+def stepJac : List String → String
+  | "f64" :: rest => match splitBar rest with
+    | [a, b] => (match jaccardF64 a b with | .ok v => f64Hex v | .error _ => "ERR")
+    | _ => "bad-op"
+  | "f32" :: rest => match splitBar rest with
+    | [a, b] => (match jaccardF32 a b with | .ok v => f32Hex v | .error _ => "ERR")
+    | _ => "bad-op"
+  | "mle" :: b :: m :: c1 :: c2 :: rest => match f64OfHex b, m.toNat?, f64OfHex c1, f64OfHex c2, splitBar rest with
+    | some b, some m, some c1, some c2, [_, s1, s2] =>
+      (match natsOf s1, natsOf s2 with
+       | some s1, some s2 =>
+         (match Mle.getMle floatOps gssG1 gssG2 0.01 b m c1 c2 s1 s2 with
+          | .ok (some v) => f64Hex v
+          | .ok none => "NONE"
+          | .error e => errWord e)
+       | _, _ => "bad-op")
+    | _, _, _, _, _ => "bad-op"
+  | _ => "bad-op"
+
 def step (st : DState) (line : String) : DState × String :=
   match (line.trimAscii.toString.splitOn " ").filter (· ≠ "") with
   | "case" :: id :: _ => (st, "case " ++ id)
@@ -148,6 +187,7 @@ def step (st : DState) (line : String) : DState × String :=
   | "xo" :: rest => (st, stepXo rest)
   | "fy" :: rest => stepFy st rest
   | "sig" :: rest => (st, stepSig rest)
+  | "jac" :: rest => (st, stepJac rest)
   | _ => (st, "bad-op")
 
 partial def loop (h : IO.FS.Stream) (out : IO.FS.Stream) (st : DState) : IO Unit := do
